@@ -555,7 +555,7 @@ def sig_of(kind, detail, case):
 
 
 def build():
-    return core.build_harness(HARNESS, extra=HARNESS_FLAGS)
+    return core.build_harness(HARNESS, san="asan_enum", extra=HARNESS_FLAGS)   # KF-C10-1 is an enum-range load
 
 
 def run(chk):
